@@ -380,15 +380,94 @@ func ruleTargetReport(c *Ctx, a *udpAnchors) {
 			isR := func(ins ssa.Instruction) bool { return ins == ssa.Instruction(r) }
 			mn, mx := 1<<30, -1
 			// count over acyclic paths header → back edge
-			var walk func(b *ssa.BasicBlock, k int, seen map[*ssa.BasicBlock]bool)
-			walk = func(b *ssa.BasicBlock, k int, seen map[*ssa.BasicBlock]bool) {
+			// flag facts along a path: the value a boolean variable (cell) was tested to have, valid until something can
+			// assign it again (a store, or a call of one of this function's closures)
+			family := map[*ssa.Function]bool{}
+			for _, ff := range eng.Family(g) {
+				family[ff] = true
+			}
+			flagOf := func(cond ssa.Value) (*ssa.Alloc, bool, bool) {
+				neg := false
+				for {
+					u, ok := cond.(*ssa.UnOp)
+					if !ok || u.Op != token.NOT {
+						break
+					}
+					cond, neg = u.X, !neg
+				}
+				u, ok := cond.(*ssa.UnOp)
+				if !ok || u.Op != token.MUL {
+					return nil, false, false
+				}
+				cell := eng.CellRoot(u.X)
+				return cell, neg, cell != nil
+			}
+			var walk func(b *ssa.BasicBlock, k int, seen map[*ssa.BasicBlock]bool, facts map[*ssa.Alloc]bool)
+			walk = func(b *ssa.BasicBlock, k int, seen map[*ssa.BasicBlock]bool, facts map[*ssa.Alloc]bool) {
 				for _, ins := range b.Instrs {
 					if isR(ins) {
 						k++
 					}
+					switch x := ins.(type) {
+					case *ssa.Store:
+						if cell := eng.CellRoot(x.Addr); cell != nil {
+							delete(facts, cell)
+						}
+					case ssa.CallInstruction:
+						invalidate := false
+						for _, h := range p.Callees(x) {
+							if family[h] {
+								invalidate = true
+							}
+						}
+						if _, isMC := x.Common().Value.(*ssa.MakeClosure); isMC {
+							invalidate = true
+						}
+						if invalidate {
+							for cell := range facts {
+								delete(facts, cell)
+							}
+						}
+					}
 				}
-				for _, s := range b.Succs {
+				for si, s := range b.Succs {
+					nf := facts
+					if iff, isIf := b.Instrs[len(b.Instrs)-1].(*ssa.If); isIf && len(b.Succs) == 2 {
+						if cell, neg, ok := flagOf(iff.Cond); ok {
+							nf = map[*ssa.Alloc]bool{}
+							for kk, vv := range facts {
+								nf[kk] = vv
+							}
+							nf[cell] = (si == 0) != neg
+						}
+					}
 					if s == l.Header {
+						// a path on which the loop condition is already known to fail does not start another iteration
+						continues := true
+						if hif, isIf := l.Header.Instrs[len(l.Header.Instrs)-1].(*ssa.If); isIf && len(l.Header.Succs) == 2 {
+							if cell, neg, ok := flagOf(hif.Cond); ok {
+								if val, known := nf[cell]; known {
+									// the header has no store/call before its test (it only loads the flag)
+									clean := true
+									for _, hi := range l.Header.Instrs {
+										switch hi.(type) {
+										case *ssa.Store, ssa.CallInstruction:
+											clean = false
+										}
+									}
+									taken := 1
+									if val != neg {
+										taken = 0
+									}
+									if clean && !l.Body[l.Header.Succs[taken]] {
+										continues = false
+									}
+								}
+							}
+						}
+						if !continues {
+							continue
+						}
 						if k < mn {
 							mn = k
 						}
@@ -401,11 +480,11 @@ func ruleTargetReport(c *Ctx, a *udpAnchors) {
 						continue
 					}
 					seen[s] = true
-					walk(s, k, seen)
+					walk(s, k, seen, nf)
 					delete(seen, s)
 				}
 			}
-			walk(l.Header, 0, map[*ssa.BasicBlock]bool{l.Header: true})
+			walk(l.Header, 0, map[*ssa.BasicBlock]bool{l.Header: true}, map[*ssa.Alloc]bool{})
 			c.CheckAt("TARGET", key+":exactly-once-per-iteration", r, mn == 1 && mx == 1, fmt.Sprintf("a reply iteration that continues the loop reports %d..%d times (must be exactly once)", mn, mx))
 		}
 		okS, badS := statusOK(c, eng.Arg(&r.Call, 0))
